@@ -195,6 +195,17 @@ Section Cor.
     unfold term_fuel. rewrite Hrest, app_length. pose proof (sdepth_le_render t). lia.
   Qed.
 
+  (* the item parser of the sentence level: the value is stored in the term slot, nothing else changes *)
+  Corollary consume_term_render : forall t v k L (st : pstate F),
+    odesugar t = Some v -> unamb is_alnum E t k = true ->
+    wf F L st -> s_rest st = render E t ++ k ->
+    consume_term F is_alnum E st =
+      POk tt (set_mid F (step F (length (render E t)) st) (mid_set_term F (s_mid st) v)).
+  Proof.
+    intros t v k L st Hv Hu Hwf Hrest. unfold consume_term.
+    rewrite (parse_term_render t v k L st Hv Hu Hwf Hrest). reflexivity.
+  Qed.
+
   (* from a fresh state on exactly the text of t: everything is consumed *)
   Corollary parse_term_whole : forall t v,
     odesugar t = Some v -> unamb is_alnum E t [] = true ->
@@ -413,6 +424,18 @@ Example ex_meaning2 :
                [TImg ImageIntension 0
                   [TVec Product [TName Word [117]%N; TName VariableDependent [49]%N]; TUnit Placeholder]])).
 Proof. vm_compute. reflexivity. Qed.
+
+(* why unamb cannot be dropped: in Han two DIFFERENT surface trees have the SAME text
+   (name `a具` + copula `有`  vs.  name `a` + copula `具有`); unamb accepts exactly the reading the parser takes;
+   with one space after the name the first reading becomes unambiguous *)
+Example ex_han_same_text :
+  let t1 := SStmt arm_property 0 0 0 0 (SAtom arm_word [97; 20855]%N) (SAtom arm_word [20540]%N) in
+  let t2 := SStmt arm_instance_property 0 0 0 0 (SAtom arm_word [97]%N) (SAtom arm_word [20540]%N) in
+  let t1' := SStmt arm_property 0 1 0 0 (SAtom arm_word [97; 20855]%N) (SAtom arm_word [20540]%N) in
+  render FORMAT_HAN t1 = render FORMAT_HAN t2 /\ odesugar t1 <> odesugar t2 /\
+  unamb ex_alnum FORMAT_HAN t1 [] = false /\ unamb ex_alnum FORMAT_HAN t2 [] = true /\
+  unamb ex_alnum FORMAT_HAN t1' [] = true.
+Proof. vm_compute. repeat split; discriminate. Qed.
 
 (* a name that is NOT unambiguous in Han: it contains the inheritance copula, the scan would cut it *)
 Example ex_unamb_rejects :
